@@ -294,6 +294,14 @@ def run_case(case, rec):
         RandomSearch(SingleObjectiveProblem(lambda p: 0.0), EvaluationBudget(earlier), rep, workload.native(case["seed"] + 1), tracker=SingleObjectiveProgressTracker(SingleObjectiveProblem(lambda p: 0.0), evaluator)).search()
         rec.count("searches_on_an_evaluator_that_served_an_earlier_search")
     tracker = SingleObjectiveProgressTracker(prob, evaluator)
+    if case["seed"] % 4 == 1:
+        # a list of configured searches, run one after the other: every tracker is built FIRST (without an evaluator of its
+        # own choosing - the usual idiom when only recorders are wanted), the searches run afterwards
+        p0 = SingleObjectiveProblem(lambda p: 0.0)
+        first = SingleObjectiveProgressTracker(p0)
+        tracker = SingleObjectiveProgressTracker(prob)
+        RandomSearch(p0, EvaluationBudget(3 + case["seed"] % 11), rep, workload.native(case["seed"] + 1), tracker=first).search()
+        rec.count("searches_whose_tracker_was_built_before_an_earlier_search_ran")
     log: list = []
     batch = {"gp": size, "rs": 1, "hc": size, "opo": 1}[case["alg"]]
     limit_stall = 50
